@@ -67,6 +67,8 @@ where
     ) -> Result<LocalChannelId, Error> {
         let id = {
             // NB: This cannot reasonably overflow.
+            #[cfg(aranya_verif)]
+            crate::verif::point("write.next_chan_id.fetch_add");
             let next = self.inner.shm().next_chan_id.fetch_add(1, Ordering::SeqCst);
             LocalChannelId::new(next)
         };
@@ -79,6 +81,8 @@ where
 
             if side.len >= side.cap {
                 // We're out of space.
+                #[cfg(aranya_verif)]
+                crate::verif::probe("write.add.out_of_space");
                 return Err(Error::OutOfSpace);
             }
 
@@ -87,13 +91,19 @@ where
             let chan = side.raw_at(idx)?;
             debug!("adding chan {id} at {idx}");
 
+            #[cfg(aranya_verif)]
+            crate::verif::point("write.add.init_chan");
             ShmChan::<CS>::init(chan, id, label_id, peer_id, &keys, &self.rng);
 
+            #[cfg(aranya_verif)]
+            crate::verif::point("write.gen.fetch_add");
             let generation = side.generation.fetch_add(1, Ordering::AcqRel);
             debug!("write side generation={}", generation + 1);
 
             // We've updated the generation and the channel, so
             // we're now free to grow the list.
+            #[cfg(aranya_verif)]
+            crate::verif::point("write.add.len");
             side.len += 1;
             assert!(side.len <= side.cap);
             debug!("write side len={}", side.len);
@@ -107,13 +117,19 @@ where
             let off = self.inner.swap_offsets(self.inner.shm(), write_off)?;
             let mut side = self.inner.shm().side(off)?.lock().assume("poisoned")?;
 
+            #[cfg(aranya_verif)]
+            crate::verif::point("write.add.init_chan");
             ShmChan::<CS>::init(side.raw_at(idx)?, id, label_id, peer_id, &keys, &self.rng);
 
+            #[cfg(aranya_verif)]
+            crate::verif::point("write.gen.fetch_add");
             let generation = side.generation.fetch_add(1, Ordering::AcqRel);
             debug!("read side generation={}", generation + 1);
 
             // We've updated the generation and the channel, so
             // we're now free to grow the list.
+            #[cfg(aranya_verif)]
+            crate::verif::point("write.add.len");
             side.len += 1;
             assert!(side.len <= side.cap);
             debug!("read side len={}", side.len);
@@ -121,6 +137,8 @@ where
             off
         };
 
+        #[cfg(aranya_verif)]
+        crate::verif::point("write.write_off.store");
         self.inner
             .shm()
             .write_off
@@ -152,6 +170,8 @@ where
 
             // As a precaution, update the generation before we
             // do anything else.
+            #[cfg(aranya_verif)]
+            crate::verif::point("write.gen.fetch_add");
             let generation = side.generation.fetch_add(1, Ordering::AcqRel);
             debug!("write side generation={}", generation + 1);
 
@@ -170,6 +190,8 @@ where
 
             // As a precaution, update the generation before we
             // do anything else.
+            #[cfg(aranya_verif)]
+            crate::verif::point("write.gen.fetch_add");
             let generation = side.generation.fetch_add(1, Ordering::AcqRel);
             debug!("read side generation={}", generation + 1);
 
@@ -180,6 +202,8 @@ where
             off
         };
 
+        #[cfg(aranya_verif)]
+        crate::verif::point("write.write_off.store");
         self.inner
             .shm()
             .write_off
@@ -205,6 +229,8 @@ where
             off
         };
 
+        #[cfg(aranya_verif)]
+        crate::verif::point("write.write_off.store");
         shm.write_off.store(read_off.into(), Ordering::SeqCst);
 
         Ok(())
@@ -239,6 +265,8 @@ where
             off
         };
 
+        #[cfg(aranya_verif)]
+        crate::verif::point("write.write_off.store");
         shm.write_off.store(read_off.into(), Ordering::SeqCst);
 
         Ok(())
@@ -248,5 +276,22 @@ where
         let mutex = self.inner.load_write_list()?;
         let list = mutex.lock().assume("poisoned")?;
         list.exists(id, None, Op::Any)
+    }
+}
+
+/// Observation points for verification harnesses.
+#[cfg(aranya_verif)]
+impl<CS: CipherSuite, R> WriteState<CS, R> {
+    /// Returns the address and the size in bytes of the mapped
+    /// shared memory.
+    pub fn verif_region(&self) -> (usize, usize) {
+        self.inner.verif_region()
+    }
+
+    /// Locks one of the two internal lists (`side` 0 or 1) and
+    /// calls `f` with the ID of each channel in it. Returns the
+    /// list's generation.
+    pub fn verif_side_snapshot(&self, side: usize, f: &mut dyn FnMut(u64)) -> Result<u32, Error> {
+        self.inner.verif_side_snapshot(side, f)
     }
 }
